@@ -124,8 +124,23 @@ class Isolation(Observer):
             return
         notification = comm_type == 'SupvisorsNotification'
         if notification and header == 4:
-            return   # DISCOVERY: about instances nobody knows yet
-        if notification and header == 0:
+            # DISCOVERY is about the instance named by the origin (identifier, nick identifier): when either names a peer
+            # that is ISOLATED here, nothing may change; about instances nobody knows yet it is out of the statement
+            status, valid = None, True
+            try:
+                d_ident, d_nick = origin[0], origin[1]
+            except Exception:  # noqa
+                return
+            for spec in sim.config['instances']:
+                node = sim.nodes[spec['node']]
+                ident = '%s:%d' % (node['host'], spec['port'])
+                if d_ident == ident or d_nick == spec['nick']:
+                    st = dst.supvisors.context.instances.get(ident)
+                    if st is not None and st.state.name == 'ISOLATED':
+                        status = st
+            if status is None:
+                return
+        elif notification and header == 0:
             # IDENTIFICATION is about the instance named in its body
             ident = body.get('identifier') if isinstance(body, dict) else None
             status = dst.supvisors.context.instances.get(ident)
